@@ -3,7 +3,10 @@
 Design: TypeSystem.tla -- OfferedCompatible, ProvidersAgree on the declarative relations for
 every hierarchy within the bounds, and the cache machine (AddSubclassEdge, AddGenerator,
 UpdateReturnType, Query with an lru_cache-like memo) with invariant CacheCoherent, for both
-providers; with the known deviations of the pinned code TLC must find the counterexamples.
+providers; with the known deviations of the code as it is (after the fixes bee086b..1991def:
+covariant type arguments in the distance, no distance from None / tuples to Any, empty offer
+for primitive requests, provider caches not cleared by add_subclass_edge) TLC must find the
+counterexamples.
 P2 static: the generated modules of C25 (one generator per universe type) are analysed by the
 real generate_test_cluster once per provider; for every requested type the generator sets
 offered by GeneratorProvider and RandomGeneratorProvider are recorded and TypeSystemTrace.tla
@@ -209,7 +212,7 @@ def run(ctx: Ctx) -> None:
     base.check_deviation_model(ctx, res["TypeSystem_dev_static.cfg"])
     got = {v.name for v in res["TypeSystem_dev_cache.cfg"].violations}
     if got != {"CacheCoherent"}:
-        raise MachineryError("the cache machine with NoClearOnAddEdge/NoClearOnAddGenerator must violate "
+        raise MachineryError("the cache machine with NoProviderClearOnAddEdge must violate "
                              f"CacheCoherent, TLC reported {sorted(got)}")
 
 
